@@ -116,7 +116,7 @@ def run_instances(insts, workdir, use_cache=True, verbose=True, witness=True):
                 words = [w for w in k["text"].split() if w.startswith("words=")]
                 if words:
                     kp[lid] = [(w.encode(), b"") for w in words[0][6:].split(",")]
-        langdata.write_header(langs, os.path.join(workdir, "langdata_gen.h"), kp)
+        builder.gen_file("langdata_gen.h", lambda t: langdata.write_header(langs, t, kp))
     with cf.ThreadPoolExecutor(16) as ex:
         futs = [ex.submit(builder.real_tu, c, t) for (c, t) in need]
         for f in futs:
@@ -133,6 +133,8 @@ def run_instances(insts, workdir, use_cache=True, verbose=True, witness=True):
                     i.build_error = str(e)
     with cf.ThreadPoolExecutor(16) as ex:
         list(ex.map(lambda i: i.build(builder) if not i.build_error else i, insts))
+    for i in insts:
+        i.gen_dirs = list(builder.gen_dirs)
     queries = []
     for i in insts:
         if i.build_error:
